@@ -12,6 +12,8 @@ pub mod c09b;
 pub mod c09c;
 #[path = "c09d.rs"]
 pub mod c09d;
+#[path = "c09e.rs"]
+pub mod c09e;
 
 fn aabb(a: &mut Args) -> Aabb { Aabb::new(d3::p(a), d3::p(a)) }
 fn faabb(b: &Aabb) -> String { format!("{} {}", d3::fp(&b.mins), d3::fp(&b.maxs)) }
@@ -25,6 +27,7 @@ pub fn exec(func: &str, a: &mut Args) -> String {
     if let Some(r) = c09b::exec(func, a) { return r; }
     if let Some(r) = c09c::exec(func, a) { return r; }
     if let Some(r) = c09d::exec(func, a) { return r; }
+    if let Some(r) = c09e::exec(func, a) { return r; }
     match func {
         "interval_add" => { let x = interval(a); let y = interval(a); fint(x + y) }
         "interval_sub" => { let x = interval(a); let y = interval(a); fint(x - y) }
@@ -181,5 +184,6 @@ pub fn gen(r: &mut Rng, thorough: bool) -> Vec<(String, String)> {
     c09b::gen(r, thorough, &mut v);
     c09c::gen(r, thorough, &mut v);
     c09d::gen(r, thorough, &mut v);
+    c09e::gen(r, thorough, &mut v);
     v
 }
